@@ -9,8 +9,14 @@
   directions the two letters of `axes-xy` name; and `ReadsInternal σ n`: the linearisation reads the points as
   `remove_inconsistency` left them.  Everything else — the mirroring of y exactly when the handedness of axes and
   angles disagree, `y_sign`, linearity — is proved.
+
+  Round 13 (second half of the file): `ReadsInternal` (and `hN`) hold BY DEFINITION for the reader `Lin.netOfInput`
+  (`Lemmas/LinInputRead.lean`; there was no bridge `Input.Net → Lin.Net` before, C07 never leaves `PE.Net`), and for
+  `PE.sigmaOf net` when the record lists the same points (`HoldsInput`); `FileCoords` stays the definition of the file
+  format, but the regenerated tables are proved consistent with that reading of the axes code and with no other
+  (`C05_file_coords_convention_matches_xnorth`, `C05_file_coords_convention_unique`).
 -/
-import Gama.Lemmas.LinInputAxes
+import Gama.Lemmas.LinInputRead
 namespace Gama.Props.C05Input
 open Gama Gama.Lin Real
 
@@ -59,5 +65,135 @@ example : exIn.removed = false ∧ FileCoords exIn exInE exInN ∧ ReadsInternal
     IsPolarAngle (exInN exInOb.pto - exInN exInOb.pfrom) (exInE exInOb.pto - exInE exInOb.pfrom) 0 ∧
     ¬ hdist (exInσ.view exInOb) < CUT ∧ ∃ fuel out, Gen.Lin.azimuth fuel (exInσ.view exInOb) = .ok out :=
   ⟨rfl, exIn_file, exIn_reads, exIn_points.1, exIn_points.2, rfl, exIn_alpha, exIn_hdist, azimuth_terminates _ exIn_hdist⟩
+
+/-! ### Round 13 — `ReadsInternal` derived for the reader; `FileCoords` witnessed by the regenerated tables -/
+
+/-- **`ReadsInternal` derived (definitional link)**: the reader `Lin.netOfInput n st ori` — the `Lin.Net` whose `pt i`
+    holds x, y, z of `(Input.removeInconsistency n).points[i]` (missing: the default-constructed point, as
+    `PE.ptAt`), whose `xNorth` is `xNorthAngle()` of the same `axes-xy` / `angles` — satisfies `ReadsInternal`
+    (every status assignment, every orientation table) and `hN`, both by unfolding.
+    NOT TIED by a proof: that gama's `LocalNetwork` hands `PD` as `remove_inconsistency()` left it to
+    `LocalLinearization` is the C++ fact this reader mirrors.  It is exercised by the `net` stream of
+    `tools/props/c05.py`: `harness/c05_net.cpp`, op `load`, runs `IS->remove_inconsistency()` right after parsing
+    and before every `project_equations()`, and dumps the `PD` the pass read (the `P` lines) for the Lean driver —
+    but that stream starts AFTER the mirroring (it never sees the file coordinates), so the reader itself is a
+    definition of this file, not a regenerated one. -/
+theorem C05_reads_internal_of_reader (n : Input.Net ℝ) (st : Nat → Status × Status) (ori : Nat → ℝ) :
+    ReadsInternal (netOfInput n st ori) n ∧
+    (netOfInput n st ori).xNorth = Gen.XNorth.xNorthAngle n.cs (!n.leftHandedAngles) :=
+  ⟨reads_internal_netOfInput n st ori, rfl⟩
+
+/-- `ReadsInternal` for what `PE.linPass` reads of the network record (`PE.sigmaOf`, `PE.ptAt`), when the record
+    lists the internal points with xy at the same positions with the same x, y (`HoldsInput`: a hypothesis — no
+    function `Input.Net → PE.Net` is modelled; identifiers, clusters, statuses come from elsewhere) -/
+theorem C05_reads_internal_of_network_record (net : PE.Net ℝ) (n : Input.Net ℝ) (h : HoldsInput net n) :
+    ReadsInternal (PE.sigmaOf net) n := reads_internal_sigmaOf net n h
+
+/-- **azimuth, geographic form, from the input, read by the reader**: `ReadsInternal` and `hN` REMOVED.  What is
+    left: `FileCoords` (the meaning of the axes code), `hα` (α is the geographic azimuth), the point look-ups, and the
+    two run-time facts (outside the cut, `azimuth` returned). -/
+theorem C05_azimuth_rhs_geographic_from_input_reader (n : Input.Net ℝ) (hrem : n.removed = false) (E N : Nat → ℝ)
+    (hfile : FileCoords n E N) (st : Nat → Status × Status) (ori : Nat → ℝ) (ob : NObs ℝ)
+    (pi pj : Input.NetPoint ℝ)
+    (hi : (Input.removeInconsistency n).points[ob.pfrom]? = some pi) (hj : (Input.removeInconsistency n).points[ob.pto]? = some pj)
+    (hxi : pi.hasXY = true) (hxj : pj.hasXY = true)
+    (α : ℝ) (hα : IsPolarAngle (N ob.pto - N ob.pfrom) (E ob.pto - E ob.pfrom) α)
+    (fuel : Nat) (out : LinOut ℝ) (h : ¬ hdist ((netOfInput n st ori).view ob) < CUT)
+    (hok : Gen.Lin.azimuth fuel ((netOfInput n st ori).view ob) = .ok out) :
+    IsWrapOf ((ob.value - (if (!n.leftHandedAngles) then -α else α)) * R2CC) out.rhs :=
+  azimuth_rhs_geographic_from_input_reader n hrem E N hfile st ori ob pi pj hi hj hxi hxj α hα fuel out h hok
+
+-- non-vacuity (reader): `exIn` read by `netOfInput`; every hypothesis is met and `azimuth` returns
+example : exIn.removed = false ∧ FileCoords exIn exInE exInN ∧
+    (Input.removeInconsistency exIn).points[exInOb.pfrom]? = some ⟨true, 0, 0, 0⟩ ∧
+    (Input.removeInconsistency exIn).points[exInOb.pto]? = some ⟨true, 0, -100, 0⟩ ∧
+    IsPolarAngle (exInN exInOb.pto - exInN exInOb.pfrom) (exInE exInOb.pto - exInE exInOb.pfrom) 0 ∧
+    ¬ hdist ((netOfInput exIn (fun _ => (.free, .free)) (fun _ => 0)).view exInOb) < CUT ∧
+    ∃ fuel out, Gen.Lin.azimuth fuel ((netOfInput exIn (fun _ => (.free, .free)) (fun _ => 0)).view exInOb) = .ok out :=
+  ⟨rfl, exIn_file, exIn_points.1, exIn_points.2, exIn_alpha, exIn_reader_hdist, azimuth_terminates _ exIn_reader_hdist⟩
+
+-- non-vacuity (`HoldsInput`): a network record with the two internal points of `exIn`
+example : HoldsInput exInPE exIn ∧ ReadsInternal (PE.sigmaOf exInPE) exIn :=
+  ⟨exInPE_holds, reads_internal_sigmaOf _ _ exInPE_holds⟩
+
+/-- under `FileCoords`, a line of geographic azimuth `α` between two points with xy has, in the coordinates
+    `remove_inconsistency` left, the bearing `(α in the sense in force) + xNorthAngle` — all 8 codes × 2 senses -/
+theorem C05_internal_bearing_from_input (n : Input.Net ℝ) (hrem : n.removed = false) (E N : Nat → ℝ)
+    (hfile : FileCoords n E N) (i j : Nat) (pi pj : Input.NetPoint ℝ)
+    (hi : (Input.removeInconsistency n).points[i]? = some pi) (hj : (Input.removeInconsistency n).points[j]? = some pj)
+    (hxi : pi.hasXY = true) (hxj : pj.hasXY = true)
+    (α : ℝ) (hα : IsPolarAngle (N j - N i) (E j - E i) α) :
+    IsPolarAngle (pj.x - pi.x) (pj.y - pi.y)
+      ((if (!n.leftHandedAngles) then -α else α) + (Gen.XNorth.xNorthAngle n.cs (!n.leftHandedAngles) : ℝ)) :=
+  internal_bearing_from_input n hrem E N hfile i j pi pj hi hj hxi hxj α hα
+
+/-- **the documented convention matches the regenerated `xNorthAngle()`**.  doc/gama-local-input.texi:
+    "`axes-xy="ne"` orientation of axes `x` and `y`; value `ne` implies that axis `x` is oriented north and axis `y`
+    is oriented east. Acceptable values are `ne`, `sw`, `es`, `wn` for left-handed coordinate systems and `en`, `nw`,
+    `se`, `ws` for right-handed coordinate systems"; lcoords.h: "`EN, NW, SE, WS, // plane right-handed systems`
+    `NE, SW, ES, WN // plane left-handed systems`".
+    IF the file coordinates are the components of the ground positions along the axes so declared (`FileCoords`:
+    `x = comp cs.xDir E N`, `y = comp cs.yDir E N`), THEN for every code and both angle senses the regenerated
+    `Gen.XNorth.xNorthAngle cs rh` is a polar angle of the line DUE NORTH in the coordinates `remove_inconsistency`
+    left: the angle, in the sense in force, from the internal +x axis to geographic north.
+    (`IsPolarAngle` fixes the angle mod 2π when the two points differ; for `N i = N j` the statement is empty.) -/
+theorem C05_file_coords_convention_matches_xnorth (n : Input.Net ℝ) (hrem : n.removed = false) (E N : Nat → ℝ)
+    (hfile : FileCoords n E N) (i j : Nat) (pi pj : Input.NetPoint ℝ)
+    (hi : (Input.removeInconsistency n).points[i]? = some pi) (hj : (Input.removeInconsistency n).points[j]? = some pj)
+    (hxi : pi.hasXY = true) (hxj : pj.hasXY = true) (hE : E j = E i) (hN : N i ≤ N j) :
+    IsPolarAngle (pj.x - pi.x) (pj.y - pi.y) (Gen.XNorth.xNorthAngle n.cs (!n.leftHandedAngles) : ℝ) :=
+  xnorth_is_bearing_of_north n hrem E N hfile i j pi pj hi hj hxi hxj hE hN
+
+-- non-vacuity: `exIn` (axes `en`, clockwise angles), P0 → P1 is due north, 100 m; internally (0, −100), bearing 300 gon
+example : exIn.removed = false ∧ FileCoords exIn exInE exInN ∧
+    (Input.removeInconsistency exIn).points[0]? = some ⟨true, 0, 0, 0⟩ ∧
+    (Input.removeInconsistency exIn).points[1]? = some ⟨true, 0, -100, 0⟩ ∧ exInE 1 = exInE 0 ∧ exInN 0 ≤ exInN 1 :=
+  ⟨rfl, exIn_file, exIn_points.1, exIn_points.2, exIn_north.1, exIn_north.2⟩
+
+/-- **… and with no other reading**: for each of the 8 codes, among the 4 × 4 assignments "+x points to `dx`, +y points
+    to `dy`" of compass directions (N, E, S, W) to the two axes, `dx = cs.xDir`, `dy = cs.yDir` (first letter = +x,
+    second letter = +y) is the ONLY one for which
+    (a) the regenerated `xNorthAngle()` table is, for both angle senses, north seen from `dx` in that sense
+        (`(400 − sense(az dx)) mod 400` gon), and
+    (b), (c) the regenerated classification of lcoords.h is that of the pair: `left_handed_coordinates()` iff `dy` is
+        `dx` turned clockwise by 100 gon, `right_handed_coordinates()` iff `dx` is `dy` turned clockwise by 100 gon.
+    A finite statement about the generated tables (8 × 16 cases by evaluation); what it does NOT say: that the parser
+    maps the string "en" to `CS::EN` (that is `Input.parseAxes`, C07's stream). -/
+theorem C05_file_coords_convention_unique (cs : CS) (dx dy : Dir) :
+    ((∀ rh : Bool, Gen.XNorth.xNorthGon cs rh = (((400 - senseGon rh dx.az) % 400 : Nat) : Int)) ∧
+     (Gen.XNorth.leftHandedCoordinates cs = true ↔ dy.az = (dx.az + 100) % 400) ∧
+     (Gen.XNorth.rightHandedCoordinates cs = true ↔ dx.az = (dy.az + 100) % 400))
+    ↔ dx = cs.xDir ∧ dy = cs.yDir := axes_reading_unique cs dx dy
+
+/-- the `xNorthAngle()` table alone, in one sense, already fixes the +x axis -/
+theorem C05_xnorth_fixes_x_axis (cs : CS) (rh : Bool) (dx : Dir)
+    (h : Gen.XNorth.xNorthGon cs rh = (((400 - senseGon rh dx.az) % 400 : Nat) : Int)) : dx = cs.xDir :=
+  xnorth_fixes_xDir cs rh dx h
+
+-- non-vacuity: the reading "en = x east, y north" is accepted, the swapped one "x north, y east" is refuted, and the
+-- hypothesis of `C05_xnorth_fixes_x_axis` holds for `en`, clockwise, `dx = E`
+example : AxesReading .EN .E .N ∧ ¬ AxesReading .EN .N .E ∧
+    Gen.XNorth.xNorthGon .EN false = (((400 - senseGon false Dir.E.az) % 400 : Nat) : Int) :=
+  ⟨(axes_reading_unique .EN .E .N).2 ⟨rfl, rfl⟩, fun h => by
+    have := ((axes_reading_unique .EN .N .E).1 h).1; exact absurd this (by decide), by decide⟩
+
+/-- **the bearing law singles out the reading** (semantic form of the uniqueness, over ℝ, for each code and EACH angle
+    sense separately): "every line of geographic azimuth `α` has, in coordinates `x = comp dx E N`,
+    `y = y_sign · comp dy E N`, the bearing `(α in the sense in force) + xNorthAngle cs rh`" — the relation that makes the
+    azimuth / direction right-hand sides geographic — holds for the reading `(dx, dy)` of the code IF AND ONLY IF
+    `dx = cs.xDir ∧ dy = cs.yDir`.  `y_sign` (`Gen.XNorth.consistent`) and `xNorthAngle` are the regenerated ones; the
+    refutation of the 15 other readings uses only the lines due north and due east.  So `FileCoords` is not one of
+    several hypotheses under which the code would be right: it is the only reading of `axes-xy` (among compass
+    directions) under which gama's azimuths are geographic. -/
+theorem C05_bearing_law_singles_out_reading (cs : CS) (rh : Bool) (dx dy : Dir) :
+    (∀ dE dN α : ℝ, IsPolarAngle dN dE α →
+      IsPolarAngle (comp dx dE dN) (ySign cs rh * comp dy dE dN)
+        ((if rh then -α else α) + (Gen.XNorth.xNorthAngle cs rh : ℝ)))
+    ↔ dx = cs.xDir ∧ dy = cs.yDir := bearing_law_unique cs rh dx dy
+
+-- non-vacuity: for `en`, clockwise: the law holds for (E, N) and fails for the swapped reading (N, E)
+example : BearingLaw .EN false .E .N ∧ ¬ BearingLaw .EN false .N .E :=
+  ⟨(bearing_law_unique .EN false .E .N).2 ⟨rfl, rfl⟩, fun h =>
+    absurd ((bearing_law_unique .EN false .N .E).1 h).1 (by decide)⟩
 
 end Gama.Props.C05Input
